@@ -78,6 +78,7 @@ type Contract struct {
 	Trusted       bool // extern/interface: assumed, not verified
 	Sig           *types.Signature
 	RecvNonNil    bool
+	Pure          bool // trusted-pure: parameter names are not bound
 	Witnesses     []map[string]string // replay seeds: param -> Go literal (string or int)
 }
 
@@ -269,7 +270,7 @@ var clauseKeywords = map[string]bool{
 	"lemma": true, "requires": true, "ensures": true, "top-ensures": true, "modifies": true, "allocates": true,
 	"panics": true, "abstract": true, "nosafety": true, "loop": true, "invariant": true, "top-invariant": true,
 	"decreases": true, "assert": true, "alias": true, "props": true, "recvnonnil": true, "ghostset": true,
-	"end": true, "opaque": true, "witness": true,
+	"end": true, "opaque": true, "witness": true, "trusted-pure": true,
 }
 
 // parseContractFile reads the //@ lines of one file.
@@ -353,6 +354,19 @@ func (p *contractParser) line(t string, no int) error {
 		return nil
 	case "pure", "rec":
 		return p.specFunc(kw == "rec", rest, no)
+	case "trusted-pure":
+		// trusted-pure pkg | pkg.Type : calls have no effect on modelled state; results are arbitrary
+		parts := strings.SplitN(strings.TrimSpace(rest), ".", 2)
+		path := p.w.resolvePkgName(p.pkg, parts[0])
+		if path == "" {
+			return fmt.Errorf("unknown package %q", parts[0])
+		}
+		key := path
+		if len(parts) == 2 {
+			key = path + "." + parts[1]
+		}
+		p.w.trustedPure[key] = true
+		return nil
 	case "lemma":
 		return p.lemmaHeader(rest, no)
 	}
